@@ -25,18 +25,21 @@ INVS = ["Delivery", "Complete", "CountNonNegative", "Released", "OnlyTheStopped"
 def gen_for(ck, sc, nsim, nedges, thorough):
     name = sc["name"]
     out = {"name": name, "scheds": [], "danger": [], "states": 0, "trans": 0, "neg": {}}
-    # 1. exhaustive check of the model of the current code
-    r = ck.tlc("fanout", "MCFanout", "m.cfg", files={"m.cfg": fs.cfg(sc, "check", invariants=INVS)}, workers=4,
-               timeout=1500, label="model check %s" % name, must_pass=False)
-    out["model_ok"] = not (r.violated or r.error)
-    out["model_violated"] = r.violated
-    out["states"], out["trans"] = r.distinct, r.generated
-    if r.violated:
-        h = r.last_seq("hist")
-        if h:
-            out["danger"].append(("current:" + r.violated[0], h))
-    elif r.error:
-        raise Infra("TLC error on %s:\n%s" % (name, r.out[-2000:]))
+    # 1. exhaustive check of the model of the current code (scenarios marked simonly are too large for the
+    #    quick tier: there the invariants are evaluated on the simulated behaviours only)
+    out["model_ok"], out["model_violated"] = True, []
+    if thorough or not sc.get("simonly"):
+        r = ck.tlc("fanout", "MCFanout", "m.cfg", files={"m.cfg": fs.cfg(sc, "check", invariants=INVS)}, workers=2,
+                   timeout=3000, label="model check %s" % name, must_pass=False)
+        out["model_ok"] = not (r.violated or r.error)
+        out["model_violated"] = r.violated
+        out["states"], out["trans"] = r.distinct, r.generated
+        if r.violated:
+            h = r.last_seq("hist")
+            if h:
+                out["danger"].append(("current:" + r.violated[0], h))
+        elif r.error:
+            raise Infra("TLC error on %s:\n%s" % (name, r.out[-2000:]))
     # 2a. simulation: complete random behaviours
     rs = ck.tlc("fanout", "MCFanout", "s.cfg", files={"s.cfg": fs.cfg(sc, "final", emit="final")}, simulate="num=%d" % nsim,
                 depth=120, timeout=600, label="simulate %s" % name)
@@ -46,15 +49,41 @@ def gen_for(ck, sc, nsim, nedges, thorough):
         if k not in seen:
             seen.add(k)
             out["scheds"].append(h)
+    # 2a'. behaviours of the model with every fix switched off: they walk through exactly the windows the fixes
+    #      close (a joiner between cache update and broadcast, a Remove between Load and Delete ...), which the
+    #      model of the fixed code never schedules.  On the fixed code the steps that are no longer possible are skipped.
+    off = {k: False for k in fs.FIX}
+    ra = ck.tlc("fanout", "MCFanout", "a.cfg", files={"a.cfg": fs.cfg(sc, "final", fix=off, emit="final")}, simulate="num=%d" % max(20, nsim // 2),
+                depth=120, timeout=600, label="simulate %s (model of the code as found)" % name, seed=ck.seed + 1000)
+    for h in ra.printed("@S"):
+        k = tuple(h)
+        if k not in seen:
+            seen.add(k)
+            out["scheds"].append(h)
     # 2b. edge cover sample
-    if nedges:
-        re_ = ck.tlc("fanout", "MCFanout", "e.cfg", files={"e.cfg": fs.cfg(sc, "edges", emit="edges")}, workers=4, timeout=1500,
-                     label="edge cover %s" % name)
-        edges = re_.printed("@S")
+    # 2b. edge cover, stratified: one shortest schedule per explored transition is printed by TLC together with the
+    #     transition's class (where every process is parked afterwards, who moved, packet kind, capped queue
+    #     lengths, flags); per class a seeded sample is replayed.  quick: transitions taken while >= 3 processes are
+    #     in the middle of an operation ("racy"), 1 per class; thorough: all transitions, several per class.
+    if nedges and not sc.get("simonly"):
+        mode = "edges" if thorough else "racy1"
+        re_ = ck.tlc("fanout", "MCFanout", "e.cfg", files={"e.cfg": fs.cfg(sc, "edges", emit=mode)},
+                     workers=(2 if thorough else 1), timeout=3000, label="edge cover (%s) %s" % (mode, name))
         rnd = random.Random(ck.seed * 7919 + len(name))
-        rnd.shuffle(edges)
-        out["edges_total"] = len(edges)
-        for h in edges[:nedges]:
+        classes = {}
+        total = 0
+        for e in re_.printed("@E"):
+            total += 1
+            classes.setdefault(e["k"] if e["k"] != "first" else "first%d" % total, []).append(e["h"])
+        out["edges_total"], out["edge_classes"] = total, len(classes)
+        per = 4 if thorough else 1
+        picked = []
+        for k in sorted(classes):
+            hs = classes[k]
+            rnd.shuffle(hs)
+            picked += hs[:per]
+        rnd.shuffle(picked)
+        for h in picked[:nedges]:
             k = tuple(h)
             if k not in seen:
                 seen.add(k)
@@ -63,7 +92,7 @@ def gen_for(ck, sc, nsim, nedges, thorough):
     for fix in ("FixWake", "FixAttach", "FixCount", "FixJoin"):
         if not fs.FIX[fix] or (not thorough and name not in NEG_QUICK.get(fix, ())):
             continue
-        rn = ck.tlc("fanout", "MCFanout", "n.cfg", files={"n.cfg": fs.cfg(sc, "check", fix={fix: False}, invariants=INVS)}, workers=4,
+        rn = ck.tlc("fanout", "MCFanout", "n.cfg", files={"n.cfg": fs.cfg(sc, "check", fix={fix: False}, invariants=INVS)}, workers=2,
                     timeout=900, label="negative control %s without %s" % (name, fix), must_pass=False)
         out["neg"][fix] = rn.violated[:1]
         if rn.violated:
@@ -77,7 +106,7 @@ def run_family(ck, prop, scen_names, clause_tags, nsim, nedges):
     """prop: 'C01'..; clause_tags: substrings of @BAD clauses that belong to this property"""
     scs = [fs.SCENARIOS[n] for n in scen_names]
     t0 = __import__("time").time()
-    with ThreadPoolExecutor(max_workers=6) as ex:
+    with ThreadPoolExecutor(max_workers=8) as ex:
         gens = list(ex.map(lambda sc: gen_for(ck, sc, nsim, nedges, not ck.quick()), scs))
     ck.cov["phase_s"] = {"tlc_generate": round(__import__("time").time() - t0, 1)}
     lines, total = [], 0
@@ -90,13 +119,13 @@ def run_family(ck, prop, scen_names, clause_tags, nsim, nedges):
             lines.append({"scenario": g["name"], "sched": h, "kind": "danger:" + why})
         if not g["model_ok"]:
             ck.notes.append("model of the current code violates %s in scenario %s (replayed on the real code below)" % (g["model_violated"], g["name"]))
-    ck.cov["scenarios"] = {g["name"]: {"states": g["states"], "schedules": len(g["scheds"]), "dangerous": [w for w, _ in g["danger"]],
+    ck.cov["scenarios"] = {g["name"]: {"states": g["states"], "schedules": len(g["scheds"]), "edges_total": g.get("edges_total", 0), "edge_classes": g.get("edge_classes", 0), "dangerous": [w for w, _ in g["danger"]],
                                         "negative_controls": g["neg"], "model_ok": g["model_ok"]} for g in gens}
     if not lines:
         raise Infra("no schedules generated")
     tmp = ck.tmp
     api, steps, outp = (os.path.join(tmp, x) for x in ("api.ndjson", "steps.ndjson", "replay_out.json"))
-    ck.run_driver("./fanout", "^TestReplay$", {"VERIF_SCENARIOS": ck.write_lines("scen.ndjson", [{k: v for k, v in sc.items() if k != "pkts_name"} for sc in scs]),
+    ck.run_driver("./fanout", "^TestReplay$", {"VERIF_SCENARIOS": ck.write_lines("scen.ndjson", [{k: v for k, v in sc.items() if k not in ("pkts_name", "simonly")} for sc in scs]),
                                                "VERIF_IN": ck.write_lines("scheds.ndjson", lines),
                                                "VERIF_OUT_API": api, "VERIF_OUT_STEPS": steps, "VERIF_OUT": outp}, timeout=3000)
     ck.cov["phase_s"]["go_replay"] = round(__import__("time").time() - t0 - ck.cov["phase_s"]["tlc_generate"], 1)
@@ -145,7 +174,7 @@ def run_family(ck, prop, scen_names, clause_tags, nsim, nedges):
         with open(p, "w") as f:
             f.writelines(by.get(sc["name"], []))
         n = len(by.get(sc["name"], []))
-        r = ck.tlc("fanout", "FanoutSteps", "t.cfg", files={"t.cfg": fs.cfg(sc, "steps", steps=True)}, workers=2, env={"VERIF_TRACE": p},
+        r = ck.tlc("fanout", "FanoutSteps", "t.cfg", gcthreads=2, heap="3g", files={"t.cfg": fs.cfg(sc, "steps", steps=True)}, workers=2, env={"VERIF_TRACE": p},
                    timeout=1800, label="step-level trace validation %s (%d records)" % (sc["name"], n), must_pass=False)
         if r.error:
             raise Infra("step validation failed for %s:\n%s" % (sc["name"], r.out[-3000:]))
